@@ -35,6 +35,17 @@ func c06Plan(tier string) []PlanItem {
 			add(s, d)
 		}
 	}
+	// long-lived records (the 500 ms periodic check and the 100 ms jitter must not scale
+	// with the TTL): K3 (H 4 s, TTL 12 s) and K4 (H 20 s, TTL 60 s), all notifications lost
+	for _, kk := range []struct {
+		n string
+		k kfn
+	}{{"K3", K3}, {"K4", K4}} {
+		s := scnFailoverDel(fmt.Sprintf("failover-del2-%s-dropall", kk.n), kk.k, "A", "B")
+		s.DropAll = true
+		s.Horizon = 2*s.H + 53*ms + 8*time.Second
+		add(s, d-1)
+	}
 	// leader stops without deleting the key: vacancy by expiry
 	s := scnStop("stop-nodelete-K1", K1, Item{Do: "stop"}, "A", "B")
 	s.Horizon += s.TTL + 600*ms
@@ -93,7 +104,7 @@ func init() {
 	oracles["C06"] = oracleC06
 	props["C06"] = &propDef{
 		Level:  "fault_enumeration",
-		Rule:   "the leader is removed (graceful stop with and without key deletion, crash, permanent partition, outside deletion) and, by moving that script item, at every choice point of the base run; per-event choice of dropping/delaying each watch notification (subsets of size <= D) plus the two presets deliver-all / drop-all; transient failures (<= D consecutive) of Watch/Get/Create on the candidates; N in {2,3}; K1, K2. On each, every execution with <= D deviations; oracle: every vacancy instant from the store log is followed by a promotion of a healthy instance within 600ms plus the latencies the harness injected; non-trivial = a vacancy occurred while a healthy candidate existed",
+		Rule:   "the leader is removed (graceful stop with and without key deletion, crash, permanent partition, outside deletion) and, by moving that script item, at every choice point of the base run; per-event choice of dropping/delaying each watch notification (subsets of size <= D) plus the two presets deliver-all / drop-all; transient failures (<= D consecutive) of Watch/Get/Create on the candidates; N in {2,3}; K1, K2 (and K3, K4 = (20 s, 60 s) with all notifications lost). On each, every execution with <= D deviations; oracle: every vacancy instant from the store log is followed by a promotion of a healthy instance within 600ms plus the latencies the harness injected; non-trivial = a vacancy occurred while a healthy candidate existed",
 		Assume: []string{"latencies injected into the candidates' operations are added to the bound (upper bound, so no false alarm)", "expiry instant = write time + TTL in the reference store"},
 		Plan:   c06Plan,
 	}
